@@ -183,3 +183,23 @@ Definition wf_pos (p : pos) : bool :=
     (r =? match c with White => 5 | Black => 2 end) && empty b (f, r) && empty b (f, r + fwd c) &&
     has b (f, r - fwd c) (opp c, Pawn)
   end.
+
+(* ---- forced mates (exhaustive; for the C11 oracle) ---- *)
+(* the side to move can force checkmate within n of its own moves *)
+Fixpoint mates_in (n : nat) (p : pos) : bool :=
+  match n with
+  | O => false
+  | S k =>
+    existsb (fun m =>
+      let p' := apply p m in
+      match legal_moves p' with
+      | [] => in_check (board p') (stm p')
+      | rs => forallb (fun r => mates_in k (apply p' r)) rs
+      end) (legal_moves p)
+  end.
+(* the side to move is mated within n moves whatever it plays (n = 0: it is checkmated now) *)
+Definition mated_in (n : nat) (p : pos) : bool :=
+  match legal_moves p with
+  | [] => in_check (board p) (stm p)
+  | ms => forallb (fun m => mates_in n (apply p m)) ms
+  end.
